@@ -12,7 +12,7 @@ RULE = ("Cases are implementation steps (one handler invocation or one EndBlocke
         "distinct = distinct (event, outcome, branch) classes among those.")
 
 ASSUMPTIONS = [
-    "infinite gas; ante-handler fees not modelled; block time non-decreasing; parameters constant within a history",
+    "infinite gas; ante-handler fees not modelled; block time non-decreasing; parameters change only through the SetParams environment action (Keeper.SetParams, as x/params does), never to values the parameter validators reject",
     "only the service module, x/bank and x/auth of the repository's simapp are exercised; MockTokenKeeper (base denomination only)",
     "amounts, heights and times below 2^31 (TLC integers); discounts with at most 2, tax and slash fraction with at most 3 fractional digits, where the integer model and sdk.Dec agree exactly",
     "trusted base: TLC 1.8.0, CommunityModules Json, the Go protobuf decoders, x/bank, the harness's projection",
@@ -23,23 +23,23 @@ ASSUMPTIONS = [
 REL = {
     "C01": ["Respond/ok", "ExpireBatch", "StartBatch", "Withdraw/ok"],
     "C02": ["Respond/ok", "ExpireBatch/settled", "StartBatch/issued", "Withdraw/ok"],
-    "C03": ["Bind/ok", "UpdateBinding/ok/dep", "Enable/ok", "RefundDeposit", "Respond/ok/bad", "ExpireBatch/settled"],
-    "C04": ["Respond/ok/bad", "ExpireBatch/settled", "RefundDeposit/ok"],
+    "C03": ["Bind/ok", "UpdateBinding/ok/dep", "Enable/ok", "RefundDeposit", "Respond/ok/bad", "ExpireBatch/settled", "PrepZeroHeight", "SetParams"],
+    "C04": ["Respond/ok/bad", "ExpireBatch/settled", "RefundDeposit/ok", "SetParams"],
     "C05": ["/rej", "/ok"],
     "C06": ["StartBatch"],
     "C07": ["StartBatch/issued", "Respond/ok"],
-    "C08": ["Respond", "StartBatch/issued", "ExpireBatch/settled"],
-    "C09": ["Pause", "Start", "Kill", "UpdateContext", "ModPause", "ModStart", "ModKill", "ModUpdate", "StartBatch", "ExpireBatch", "Call/ok", "ModCreate/ok"],
-    "C10": ["StartBatch", "ExpireBatch", "UpdateContext/ok", "Call/ok", "EndBlock"],
-    "C11": ["StartBatch", "ExpireBatch", "Start", "Pause", "Kill", "Call/ok", "EndBlock", "ModCreate/ok", "ModStart"],
+    "C08": ["Respond", "StartBatch/issued", "ExpireBatch/settled", "SetParams"],
+    "C09": ["Pause", "Start", "Kill", "UpdateContext", "ModPause", "ModStart", "ModKill", "ModUpdate", "StartBatch", "ExpireBatch", "Call/ok", "ModCreate/ok", "PrepZeroHeight", "Restart", "Respond/ok/valid/cb/react", "Respond/ok/bad/cb/react"],
+    "C10": ["StartBatch", "ExpireBatch", "UpdateContext/ok", "Call/ok", "EndBlock", "Restart", "SetParams"],
+    "C11": ["StartBatch", "ExpireBatch", "Start", "Pause", "Kill", "Call/ok", "EndBlock", "ModCreate/ok", "ModStart", "Restart", "SetParams"],
     "C12": ["Respond/ok", "ExpireBatch", "StartBatch"],
     "C13": ["Withdraw", "Respond/ok", "SetWithdrawAddr"],
-    "C14": ["Bind", "UpdateBinding", "Enable", "Respond/ok/bad", "ExpireBatch/settled"],
+    "C14": ["Bind", "UpdateBinding", "Enable", "Respond/ok/bad", "ExpireBatch/settled", "SetParams", "PrepZeroHeight"],
     "C15": ["Define", "Bind", "UpdateBinding", "Obs"],
-    "C16": ["ExpireBatch", "Respond/ok"],
+    "C16": ["ExpireBatch", "Respond/ok", "StartBatch/finished", "Restart"],
     "C17": ["Obs"],
     "C18": ["StartBatch/issued", "Obs"],
-    "C19": ["Genesis"],
+    "C19": ["Genesis", "PrepZeroHeight", "Restart"],
     "C20": ["/panic", "Bind/rej", "Call/rej", "EndBlock"],
 }
 
@@ -55,11 +55,12 @@ def classify(prev, line):
     lab = name
     if name in ("BeginEndBlock", "Mid", "EndBlock"):
         return lab
+    react = "/react" if any(c.get("kind") == "react" for c in line["cb"]) else ""
     if name == "ExpireBatch":
         settled = len(prev["actId"]) - len(st["actId"]) if prev else 0
         gone = len(prev["ctx"]) - len(st["ctx"]) if prev else 0
-        return "%s/%s/%s%s" % (name, "settled" if settled > 0 else "clean", "removed" if gone else "kept",
-                               "/cb" if line["cb"] else "")
+        return "%s/%s/%s%s%s" % (name, "settled" if settled > 0 else "clean", "removed" if gone else "kept",
+                                 "/cb" if line["cb"] else "", react)
     if name == "StartBatch":
         issued = len(st["actId"]) - len(prev["actId"]) if prev else 0
         pc = {c["id"]: c for c in (prev or st)["ctx"]}.get(e["id"])
@@ -68,14 +69,16 @@ def classify(prev, line):
             return "%s/issued/%d" % (name, min(issued, 3))
         if pc and nc and nc["batch"] > pc["batch"]:
             return name + "/skipped"
-        if pc and nc and pc["state"] == "running" and nc["state"] == "paused":
-            return name + "/paused" + ("/cb" if line["cb"] else "")
+        if pc and nc and pc["state"] == "running" and nc["state"] in ("paused", "completed"):
+            return name + "/paused" + ("/cb" if line["cb"] else "") + react
+        if pc and not nc:
+            return name + "/finished"
         return name + "/notrunning"
     if e.get("panic"):
         return lab + "/panic"
     lab += "/ok" if e["ok"] else "/rej"
     if name == "Respond":
-        lab += "/" + e["kind"] + ("/cb" if line["cb"] else "")
+        lab += "/" + e["kind"] + ("/cb" if line["cb"] else "") + react
     elif name in ("UpdateBinding",):
         lab += ("/dep" if e["deposit"] else "") + ("/pr" if e["hasPr"] else "") + ("/qos" if e["qos"] else "")
     elif name in ("Bind", "Enable"):
